@@ -95,6 +95,20 @@ class RadialNumericalBH:
         #   variables which are required.
         # - This is here partially because equivalent boreholes are generated.
         self.single_u_tube = single_u_tube
+        # the grid geometry and c_0 belong to the exchanger handed in, not to the one the object was
+        # created with (same formulas as in __init__)
+        self.r_borehole = single_u_tube.b.r_b
+        self.r_out_tube = sqrt(2) * single_u_tube.pipe.r_out
+        self.t_pipe_wall_actual = single_u_tube.pipe.r_out - single_u_tube.pipe.r_in
+        self.r_in_tube = self.r_out_tube - self.t_pipe_wall_actual
+        self.r_convection = self.r_in_tube - self.t_pipe_wall_actual / 4.0
+        self.r_fluid = self.r_convection - (3.0 / 4.0 * self.t_pipe_wall_actual)
+        self.thickness_soil_cell = (self.r_far_field - self.r_borehole) / self.num_soil_cells
+        self.thickness_grout_cell = (self.r_borehole - self.r_out_tube) / self.num_grout_cells
+        self.thickness_pipe_cell = (self.r_out_tube - self.r_in_tube) / self.num_pipe_cells
+        self.thickness_conv_cell = (self.r_in_tube - self.r_convection) / self.num_conv_cells
+        self.thickness_fluid_cell = (self.r_convection - self.r_fluid) / self.num_fluid_cells
+        self.c_0 = TWO_PI * single_u_tube.soil.k
         soil_diffusivity = single_u_tube.k_s / single_u_tube.soil.rhoCp
         self.t_s = single_u_tube.b.H**2 / (9 * soil_diffusivity)
         self.calc_time_in_sec = max([self.t_s * exp(-8.6), 49.0 * SEC_IN_HR])
